@@ -64,6 +64,79 @@ def head_store(f):
             if m == 'store' and fam.last_field(eb.operand(t['args'][0])) == 'entries_head']
 
 
+def offset_loop(f, facts):
+    """`for head in (0..tail.wrapping_sub(head)).map(|offset| head.wrapping_add(offset)) { .. }`: the head counter is not
+    mutated; the loop runs over the offsets 0..distance and derives each position from the head it started with.
+    Returns dict(next=location of the Iterator::next call, var=locals holding the position of this iteration,
+    some=Some edge) or None."""
+    eb = ExprBuilder(f)
+    res = fam.ctr_analysis(f)
+    heads = {l for l, ts in res.tags.items() if 'ctr:entries_head' in ts}
+    tails = {l for l, ts in res.tags.items() if 'ctr:entries_tail' in ts}
+
+    def is_head(e):
+        while e[0] in ('ref', 'cast'):
+            e = e[1] if e[0] == 'ref' else e[4]
+        return (e[0] == 'local' and e[1] in heads) or (e[0] == 'call' and e[1] == fam.LOAD_KERNEL_SHARED and fam.last_field(e[2][0]) == 'entries_head')
+
+    def is_tail(e):
+        while e[0] in ('ref', 'cast'):
+            e = e[1] if e[0] == 'ref' else e[4]
+        return (e[0] == 'local' and e[1] in tails) or (e[0] == 'call' and e[1] == fam.LOAD_KERNEL_SHARED and fam.last_field(e[2][0]) == 'entries_tail')
+    for loc, t in f.calls():
+        if (t.get('callee') or '') != 'std::iter::Iterator::next' or f.blocks[loc[0]]['cleanup']:
+            continue
+        it = eb.operand(t['args'][0])
+        maps = [x for x in subexprs(it) if x[0] == 'call' and x[1] == 'std::iter::Iterator::map' and len(x[2]) == 2]
+        if len(maps) != 1:
+            continue
+        rng, clo = maps[0][2]
+        if not (rng[0] == 'agg' and rng[1].endswith('Range::Range') and len(rng[3]) == 2 and rng[3][0][0] == 'const' and rng[3][0][1] == 0):
+            continue
+        d = rng[3][1]
+        if not (d[0] == 'call' and d[1] == 'core::num::<impl u32>::wrapping_sub' and is_tail(d[2][0]) and is_head(d[2][1])):
+            continue
+        if not (clo[0] == 'agg' and clo[1] == 'closure' and len(clo[3]) == 1 and is_head(clo[3][0])):
+            continue
+        # the closure: captured head (+) offset, wrapping
+        cg = None
+        for l2, s2 in f.assigns():
+            if s2['rv']['k'] == 'agg' and s2['rv'].get('ak') == 'closure':
+                cand = facts.fn_opt(s2['rv'].get('closure') or '')
+                if cand is not None:
+                    ce = ExprBuilder(cand)
+                    rets = [ce.call(t2) for _, t2 in cand.calls() if not t2['dest']['p'] and t2['dest']['l'] == 0]
+                    if len(rets) == 1 and rets[0][1] == 'core::num::<impl u32>::wrapping_add':
+                        a, b = rets[0][2]
+                        up = lambda x: x[0] == 'proj' and x[1][0] == 'arg' and x[1][1] == 1
+                        par = lambda x: x[0] == 'arg' and x[1] == 2
+                        if (up(a) and par(b)) or (up(b) and par(a)):
+                            cg = cand
+        if cg is None:
+            continue
+        some = None
+        for si in f.enum_switches('std::option::Option'):
+            if not si['place']['p'] and si['place']['l'] == t['dest']['l']:
+                some = f.variant_edge(si, 'Some')
+        if some is None:
+            continue
+        var = set()
+        for l2, s2 in f.assigns():
+            rv = s2['rv']
+            if rv['k'] == 'use' and 'l' in rv['op'] and rv['op']['l'] == t['dest']['l'] and rv['op']['p'] and not s2['lhs']['p']:
+                var.add(s2['lhs']['l'])
+        changed = True
+        while changed:
+            changed = False
+            for l2, s2 in f.assigns():
+                rv = s2['rv']
+                if rv['k'] == 'use' and 'l' in rv['op'] and not rv['op']['p'] and rv['op']['l'] in var and not s2['lhs']['p'] and s2['lhs']['l'] not in var:
+                    var.add(s2['lhs']['l'])
+                    changed = True
+        return {'next': loc, 'var': var, 'some': some}
+    return None
+
+
 def r2_publish_last(r, facts):
     f = facts.fn(POLL)
     stores = head_store(f)
@@ -89,7 +162,15 @@ def r2_publish_last(r, facts):
     res = fam.ctr_analysis(f)
     v = st['args'][1]
     tags = res.tags.get(v['l'], set()) if 'l' in v else set()
-    r.require('ctr:entries_head' in tags, 'Completions::poll/publish-value', 'value stored to entries_head is not derived from the head counter', f.where(st_loc))
+    ok_v = 'ctr:entries_head' in tags
+    if not ok_v and 'ctr:entries_tail' in tags:
+        # publishing the tail that was read is the same value when the loop visited every position from head to that tail:
+        # an offset loop over 0..tail-head that can only be left when it is exhausted
+        ol = offset_loop(f, facts)
+        if ol is not None and f.forward_paths_hit([Loc(ol['some'][1], 0)], [st_loc], blockers=[ol['next']]) is None:
+            ok_v = True
+            r.inst('publishes the tail after a complete offset loop head..tail', f.where(st_loc))
+    r.require(ok_v, 'Completions::poll/publish-value', 'value stored to entries_head is not derived from the head counter', f.where(st_loc))
     r.floor(3)
 
 
@@ -123,6 +204,13 @@ def r3_once_per_slot(r, facts):
             e = eb.call(t)
             if _is_inc_of(e, t['dest']['l']):
                 adv.append(loc)
+    if not adv:
+        # an offset loop: each Iterator::next yields the next position head (+) offset; that call is the advance
+        ol = offset_loop(f, facts)
+        if ol is not None:
+            adv = [ol['next']]
+            head_locals = set(head_locals) | ol['var']
+            res.tags.update({l: set(res.tags.get(l, set())) | {'ctr:entries_head'} for l in ol['var']})
     if not r.require(len(adv) >= 1, 'Completions::poll/advance', 'no `head = head (+) 1` advance of the loop counter found (unrecognised form)', f.where()):
         return
     r.inst('process call', f.where(p_loc))
@@ -145,6 +233,10 @@ def r3_once_per_slot(r, facts):
         if e[0] == 'bin' and e[1] == 'BitAnd':
             for x, m in ((e[2], e[3]), (e[3], e[2])):
                 if x[0] == 'local' and x[1] in head_locals and _len_minus_1(m, 'entries_len'):
+                    ok = True
+                # the position yielded by an offset loop (head (+) offset)
+                if x[0] == 'proj' and tuple(x[2]) == ('@Some', '.0') and x[1][0] == 'call' and x[1][1] == 'std::iter::Iterator::next' \
+                        and offset_loop(f, facts) is not None and _len_minus_1(m, 'entries_len'):
                     ok = True
         elif e[0] == 'bin' and e[1] == 'Rem':
             ok = e[2][0] == 'local' and e[2][1] in head_locals and fam.last_field(e[3]) == 'entries_len'
@@ -215,6 +307,11 @@ def r3_once_per_slot(r, facts):
             if some is not None and f.edge_dominates(some, p_loc) and f.forward_paths_hit([Loc(adv[0][0], adv[0][1])], [loc]) is not None:
                 ok_edge = True
                 r.inst('counted loop over 0..wrapping_sub(tail, head)', f.where(loc))
+    if not ok_edge:
+        ol = offset_loop(f, facts)
+        if ol is not None and f.edge_dominates(ol['some'], p_loc):
+            ok_edge = True
+            r.inst('offset loop over 0..wrapping_sub(tail, head)', f.where(ol['next']))
     r.require(ok_edge, 'Completions::poll/loop-test', 'the processing loop is not guarded, per iteration, by a head-vs-tail test excluding head == tail', f.where(p_loc))
     # tail values come from load_kernel_shared (Acquire; ORD of that function is checked in C04.R3 and here)
     lk = facts.fn(fam.LOAD_KERNEL_SHARED)
